@@ -107,7 +107,7 @@ func zzC15(base int32, steps int) {
 	go w.w.handleChainNotifications()
 	w.check("c15-initial")
 	for s := 0; s < steps; s++ {
-		switch verifrt.Choice(7, "evolution") {
+		switch verifrt.Choice(9, "evolution") {
 		case 0:
 			w.connectNew(false)
 		case 1:
@@ -159,6 +159,35 @@ func zzC15(base int32, steps int) {
 			w.connectNew(false)
 			w.connectNew(false)
 			verifrt.Reach("reorg-started-during-rescan")
+		case 7: // two new blocks, the notification for the SECOND arrives first
+			// (out of order, as after a rescan): it must be refused and leave
+			// the wallet's tip where it was; then both arrive in order
+			c := w.chain
+			t := c.tip()
+			b1 := zzBlk{height: t.height + 1, fork: c.nextFrk}
+			b2 := zzBlk{height: t.height + 2, fork: c.nextFrk + 1}
+			c.nextFrk += 2
+			m1, m2 := c.meta(b1), c.meta(b2)
+			verifrt.Note("out-of-order connect")
+			w.send(chain.BlockConnected(m2))
+			st := w.w.Manager.SyncedTo()
+			verifrt.Assert(st.Height == t.height && st.Hash == zzHash(t.height, t.fork), "c15-refused-out-of-order-connect-leaves-the-tip")
+			c.blocks = append(c.blocks, b1, b2)
+			w.send(chain.BlockConnected(m1))
+			w.send(chain.BlockConnected(m2))
+			verifrt.Reach("out-of-order-connect")
+		case 8: // a reorg of depth 1 that happens entirely while a rescan is
+			// running: the disconnect is not processed, the wallet follows
+			// through the connect at its own tip height, which replaces the
+			// remembered hash (no wallet transaction in the replaced block)
+			if len(w.chain.blocks) < 2 || (w.txBlock != nil && w.txBlock.height == w.chain.tip().height) {
+				verifrt.Assume(false)
+			}
+			w.w.SetChainSynced(false)
+			w.disconnectTip()
+			w.connectNew(false)
+			w.w.SetChainSynced(true)
+			verifrt.Reach("reorg-entirely-during-rescan")
 		}
 		w.check("c15")
 	}
